@@ -172,14 +172,20 @@ def run_shard(spec, R):
     for i, shape in enumerate(shapes):
         if i % spec["nshards"] != spec["shard"]:
             continue
-        for kind in ("scalar", "list"):
+        for kind in ("scalar", "list", "ndarray"):
             if not R.want(["shape", list(shape), kind]):
                 continue
             src[0] = f"direct:{kind}"
             vs = float(10 ** rng.uniform(-2, 2)) if kind == "scalar" else [float(10 ** rng.uniform(-2, 2)) for _ in shape]
+            if kind == "ndarray":
+                vs = np.array(vs, dtype=float)
+            want = np.full(len(shape), vs) if kind == "scalar" else np.array(vs, dtype=float)
             ok, g = R.guarded("grid_constructible", lambda: darsia.Grid(shape, vs))
             if ok:
-                want = np.full(len(shape), vs) if kind == "scalar" else np.asarray(vs)
+                if kind != "scalar":  # the caller goes on using (and overwriting) its own container
+                    for d in range(len(shape)):
+                        vs[d] = vs[d] / 2
+                    vs = want.tolist()
                 R.check(np.array_equal(np.asarray(g.voxel_size, float), want), "voxel_size_kept", {"shape": list(shape)})
                 if i < 3:
                     R.sample({"shape": list(shape), "voxel_size": vs, "num_faces": int(g.num_faces)})
